@@ -21,6 +21,9 @@ type ClonePool struct {
 
 	pendingFinalize sortablePendingClones
 	pendingRelease  sortablePendingClones
+
+	// Pool of the enclosing context, if any (see SetParent).
+	parent *ClonePool
 }
 
 // NewClonePool returns a new *ClonePool ready to be used.
@@ -32,6 +35,24 @@ func NewClonePool() *ClonePool {
 
 var _ Pool = (*ClonePool)(nil)
 
+// SetParent tells p that q is the pool of the enclosing runtime context.  A
+// value which is already marked in the pool of an enclosing context stays with
+// that pool when it is marked again: the Go runtime allows only one finalizer
+// per object, and the value outlives the inner context anyway.
+func (p *ClonePool) SetParent(q Pool) {
+	if cq, ok := q.(*ClonePool); ok && cq != p {
+		p.parent = cq
+	}
+}
+
+// tracks returns true if a value with key k is currently registered in p.
+func (p *ClonePool) tracks(k Key) bool {
+	p.mx.Lock()
+	defer p.mx.Unlock()
+	_, ok := p.cloneRegister[k]
+	return ok
+}
+
 // Get always returns nil because ClonePool doesn't support weak references.
 func (p *ClonePool) Get(v Value) WeakRef {
 	return nil
@@ -41,6 +62,13 @@ func (p *ClonePool) Get(v Value) WeakRef {
 // should be run.
 func (p *ClonePool) Mark(v Value, flags MarkFlags) {
 	k := v.Key()
+	for q := p.parent; q != nil; q = q.parent {
+		if q.tracks(k) {
+			// The value belongs to an enclosing context: keep it there.
+			q.Mark(v, flags)
+			return
+		}
+	}
 	p.mx.Lock()
 	defer p.mx.Unlock()
 	c, ok := p.cloneRegister[k]
@@ -52,6 +80,11 @@ func (p *ClonePool) Mark(v Value, flags MarkFlags) {
 		return
 	}
 	if !ok {
+		// v may still carry the go finalizer of a pool that has been
+		// discarded (its context ended while v was still reachable).  That
+		// finalizer would do nothing, but setting a second one is a fatal
+		// error in the Go runtime, so clear it first.
+		setFinalizer(v, nil)
 		setFinalizer(v, p.goFinalizer)
 	}
 	c.value = v.Clone()
